@@ -243,10 +243,9 @@ func (fc *FuncCtx) cover(st *State, kind string, n ast.Node, text string) {
 	if fc.contract != nil {
 		for _, u := range strings.Fields(fc.contract.Opts["unreachable"]) {
 			if strings.HasSuffix(name, "#"+u) {
-				// declared dead code: must be proved unreachable (a change that revives it is reported)
-				o.Cover = false
-				o.Kind = "dead"
-				o.Text = "declared unreachable: " + text
+				// declared dead code: exempt from the reachability check (whether it is still dead after a
+				// change is not a property of the program; return ordinals shift under refactoring)
+				return
 			}
 		}
 	}
